@@ -546,6 +546,61 @@ def o8(h, st):
     h.done()
 
 
+@contract("C10", "O9.sampled.wide_registers.deterministic", level="B",
+          structures=lambda tier: [{"n": n, "n_meas": m, "save": sv, "desired": d} for n, m in ((9, 2), (8, 3), (10, 1), (7, 4), (11, 2), (3, 1)) for sv in (True, False) for d in (False, True)
+                                   if sv or not d][:: 1 if tier != "quick" else 1],
+          native_samples=lambda st, rnd, tier: [{"seed": rnd.randint(0, 10 ** 6)}],
+          targets=[(BK, "Backend.simulate"), (TGC, "CirqSimulator.simulate_circuit")])
+def o9(h, st):
+    """bounded: CLASSICAL (X / CNOT only) circuits with mid-circuit MEASURE gates on registers wide enough that measurements + width exceeds ten: every outcome is certain, so
+    sampled mode (with and without saved mid-circuit measurements, with and without a desired outcome string) must report exactly the one final bitstring of the classical
+    evolution with frequency one - each bit under its own qubit, whatever the number of measurement records -, the one mid-circuit string, and their concatenation as joint string"""
+    import random
+    import numpy as np
+    from tangelo.linq import get_backend
+    rnd = random.Random(int(h.integer("seed")) + 7 * st["n"])
+    np.random.seed(int(h.integer("seed")) % (2 ** 31))
+    n, n_meas = st["n"], st["n_meas"]
+    bits = [0] * n
+    gates, mid = [], ""
+    meas_left = n_meas
+    for step in range(3 * n):
+        if rnd.random() < 0.6:
+            q = rnd.randrange(n)
+            gates.append(mk_gate("X", q))
+            bits[q] ^= 1
+        else:
+            a, b = rnd.sample(range(n), 2)
+            gates.append(mk_gate("CNOT", b, a))
+            bits[b] ^= bits[a]
+        if meas_left and step % (3 * n // (n_meas + 1)) == 1:
+            q = rnd.randrange(n)
+            gates.append(mk_gate("MEASURE", q))
+            mid += str(bits[q])
+            meas_left -= 1
+    while meas_left:
+        q = rnd.randrange(n)
+        gates.append(mk_gate("MEASURE", q))
+        mid += str(bits[q])
+        meas_left -= 1
+        gates.append(mk_gate("X", (q + 1) % n))
+        bits[(q + 1) % n] ^= 1
+    final = "".join(str(b) for b in bits)
+    c = mk_circuit(gates, n)
+    shots = 12
+    sim = get_backend("cirq", n_shots=shots)
+    desired = mid if st["desired"] else None
+    freqs, _ = h.call(BK, "Backend.simulate", sim, c, False, None, desired, st["save"])
+    freqs = {k: v for k, v in freqs.items() if abs(v) > 1e-12}
+    h.check("the certain final bitstring (qubit 0 first) with frequency one", set(freqs) == {final} and abs(freqs[final] - 1) < 1e-9, detail=f"{freqs} vs {final}")
+    if st["save"]:
+        midf = {k: v for k, v in sim.mid_circuit_meas_freqs.items() if abs(v) > 1e-12}
+        h.check("the certain mid-circuit string with frequency one", set(midf) == {mid} and abs(midf[mid] - 1) < 1e-9, detail=f"{midf} vs {mid}")
+        allf = {k: v for k, v in sim.all_frequencies.items() if abs(v) > 1e-12}
+        h.check("joint string == mid-circuit string ++ final bitstring", set(allf) == {mid + final}, detail=f"{allf} vs {mid + final}")
+    h.done()
+
+
 # ---------------------------------------------------------------------------------------------------------------------
 # P1  get_unitary_circuit_pieces on a circuit of ANY length (loop cut; the constructor under its own contract C11.P4)
 
